@@ -182,7 +182,15 @@ def check_formula(run, bp, g, cards):
             for dag in (True, False):
                 def script(dag=dag):
                     buf = StringIO()
-                    smtlibscript_from_formula(f).serialize(buf, daggify=dag)
+                    try:
+                        sc_ = smtlibscript_from_formula(f)
+                    except Exception as e_:
+                        if type(e_).__name__ != "NoLogicAvailableError":
+                            raise
+                        # pySMT has no logic for the formula: the caller names one
+                        sc_ = smtlibscript_from_formula(f, logic="ALL")
+                        run.cls("script-with-explicit-logic")
+                    sc_.serialize(buf, daggify=dag)
                     return buf.getvalue()
                 grab("script/%s" % ("dag" if dag else "tree"), script)
     syms = sorted(reffv(b0), key=repr)
@@ -204,6 +212,9 @@ def check_formula(run, bp, g, cards):
 
 PSORTS = ["S1", "S2", "L{S1}", "L{S2}", "P{S2, Int}", "P{S1, Bool}", "my sort", "my list{S1}", "my list{my sort}"]
 CFGS = [Cfg(max_depth=4, quant_unbounded=True, sorts=PSORTS, quant_types=[BOOL, BV(1), BV(2), SORT("S1"), SORT("L{S1}")]),
+        # arrays indexed by uninterpreted sorts (their constant arrays have no assigned index: the index sort may occur
+        # nowhere else)
+        Cfg(max_depth=3, theories={"bool", "int", "arr", "sort"}, sorts=["S1", "S2"], array_idx=[SORT("S1"), SORT("S2"), INT]),
         Cfg(max_depth=3, theories={"bool", "int", "real", "str", "arr", "uf", "sort", "quant"}, quant_unbounded=True,
             sorts=PSORTS),
         Cfg(max_depth=4, theories={"bool", "bv", "arr", "uf", "quant"}, bv_widths=[1, 2, 4, 8, 33]),
